@@ -43,8 +43,8 @@ def cases(tier, seed):
         out.append(dict(kind="ode", n=n, b=1, box=box, method="grid", seed=sd + n, draws=1))
         if not quick or n % 2:
             out.append(dict(kind="statio", dim=1, n=n, b=1, nb=2, bb=2, box=BOXES[(n + 1) % 4], method="grid", seed=sd + n, draws=1))
-        if not quick:
-            out.append(dict(kind="nonstatio", dim=1, n=3, b=1, nb=None, bb=None, nt=n, bt=1, box=box, tbox=BOXES[(n + 2) % 4],
+        if not quick or n % 2:
+            out.append(dict(kind="nonstatio", dim=1, n=3, b=1, nb=None, bb=None, nt=n, bt=1, box=box, tbox=BOXES[(n + 1) % 4],
                             method="grid", seed=sd + n, draws=1))
     for r in range(1, (8 if quick else 12)):
         for bi, box in enumerate(BOXES):
